@@ -131,18 +131,21 @@ def plurality_iff_lemma(S, I, variant):
 
 # ------------------------------------------------------------------ C02: super-majority assorter
 
-def supermajority_setup(S, I):
+def supermajority_setup(S, I, pass_share=True):
     f = S.real("share_to_win", lo_strict=0, hi_strict=1)
     cands = ["W", "L1", "L2"]
     con = mk_contest(I, id="con", name="con", cards=S.integer("cards", lo=1), candidates=cands, winner=["W"], share_to_win=f)
     fn = I.get(MOD, "Assertion.make_supermajority_assertion")
-    r, exc = guard(S, I, lambda: I.call(fn, [], {"contest": con, "share_to_win": f, "winner": "W", "loser": ["L1", "L2"]}))
+    kw = {"contest": con, "winner": "W", "loser": ["L1", "L2"]}
+    if pass_share:
+        kw["share_to_win"] = f
+    r, exc = guard(S, I, lambda: I.call(fn, [], kw))
     return f, cands, con, r, exc
 
 
-@script(["C02", "C06"], "Assertion.make_supermajority_assertion/assorter")
+@script(["C02", "C06"], "Assertion.make_supermajority_assertion/assorter", variants=(("share passed",), ("share taken from the contest",)))
 def supermajority_assorter(S, I, variant):
-    f, cands, con, r, exc = supermajority_setup(S, I)
+    f, cands, con, r, exc = supermajority_setup(S, I, pass_share=(variant[0] == "share passed"))
     if exc:
         return
     S.holds("key", set(r.keys()) == {"W v ALL_OTHERS"})
@@ -412,14 +415,14 @@ def sample_setup(S, I, n, audit_type, use_style):
     return u_a, thr, con, mvrs, cvrs, dict((id(c), x) for c, x in vals), means, assorter, v, asn
 
 
-@script(["C06", "C07"], "Assertion.mvrs_to_data/comparison (bounded: n cards)", variants=tuple((n[0], s, a) for n in NCARDS for s in ("style", "nostyle") for a in ("all", "thr")))
+@script(["C06", "C07"], "Assertion.mvrs_to_data/comparison (bounded: n cards)", variants=tuple((n[0], s, a) for n in NCARDS for s in ("style", "nostyle") for a in ("all", "thr", "default")))
 def mvrs_to_data_comparison(S, I, variant):
     n = int(variant[0][1:])
     use_style = variant[1] == "style"
-    use_all = variant[2] == "all"
+    use_all = variant[2] == "all"          # "default": the argument is omitted, as set_p_values does; the threshold filter applies
     u_a, thr, con, mvrs, cvrs, vals, means, assorter, v, asn = sample_setup(S, I, n, "CARD_COMPARISON", use_style)
     fn = I.getattr(asn, "mvrs_to_data")
-    r, exc = guard(S, I, lambda: I.call(fn, [mvrs, cvrs], {"use_all": use_all}), allowed=("ValueError",))
+    r, exc = guard(S, I, lambda: I.call(fn, [mvrs, cvrs], {} if variant[2] == "default" else {"use_all": use_all}), allowed=("ValueError",))
     c = ctx()
     if exc:
         S.holds("no exception expected: every contributing CVR lists the contest", False)
@@ -1311,10 +1314,10 @@ def lazy_assorter(S, I, con, u_a, means):
 
 
 @script(["C06", "C07"], "Assertion.mvrs_to_data/comparison (unbounded number of sampled cards)",
-        variants=tuple((s, a) for s in ("style", "nostyle") for a in ("all", "thr")), optional=True)
+        variants=tuple((s, a) for s in ("style", "nostyle") for a in ("all", "thr", "default")), optional=True)
 def mvrs_to_data_unbounded(S, I, variant):
     use_style = variant[0] == "style"
-    use_all = variant[1] == "all"
+    use_all = variant[1] == "all"          # "default": the argument is omitted, as set_p_values does; the threshold filter applies
     c = ctx()
     N = S.integer("n_sampled", lo=0)
     u_a = S.real("u_a", lo=Fraction(1, 2))
@@ -1329,7 +1332,7 @@ def mvrs_to_data_unbounded(S, I, variant):
     c.assume(xcmp("<=", v, xsub(xmul(XR.const(2), u_a), ONE)))
     asn = Obj(I.get(MOD, "Assertion"), {"contest": con, "assorter": assorter, "margin": v, "winner": "A", "loser": "B"})
     fn = I.getattr(asn, "mvrs_to_data")
-    r, exc = guard(S, I, lambda: I.call(fn, [mvrs, cvrs], {"use_all": use_all}))
+    r, exc = guard(S, I, lambda: I.call(fn, [mvrs, cvrs], {} if variant[1] == "default" else {"use_all": use_all}))
     if exc:
         return
     d, u = r
